@@ -50,7 +50,7 @@ def run(d, srcs, dialects="all", expect=None, nsh=12, tag="", expect_takes=None,
             if has_s and r["outcome"] == "sql" and (r.get("parse_error") or r.get("prepare") not in (None, "ok")):
                 stats["unjudged_sstring"] += 1      # SQL text supplied by the user
                 continue
-            recs[(r["id"], r["dialect"])] = {k: r.get(k) for k in ("sql", "parse_error", "prepare", "reason")}
+            recs[(r["id"], r["dialect"])] = {k: r.get(k) for k in ("sql", "parse_error", "prepare", "reason", "fmt_sql")}
             if expect is not None and r["id"] in expect:
                 # a generated name / an expression text stands for a column the program did not name
                 r["expect"] = [n if re.fullmatch(r"[A-Za-z][A-Za-z0-9_]*", n) else ("" if not re.fullmatch(r"_(?!expr_\d+$)\w+", n) else n) for n in expect[r["id"]]]
